@@ -61,11 +61,15 @@ OBLIGATIONS = [
     "SkVerif.C16.predict_tie_select_partial",
     "SkVerif.C16.predict_first_max_rowwise",
     "SkVerif.C16.predict_tie_not_equivariant_witness",
-    "SkVerif.C16.union_container_invariant_partial",
-    "SkVerif.C16.union_container_witness",
-    "SkVerif.C16.union_default_labels_rowwise_partial",
-    "SkVerif.C16.union_label_misalignment_witness",
-    "SkVerif.C16.union_single_instance_two_rows_witness",
+    "SkVerif.C16.union_container_invariant",
+    "SkVerif.C16.union_accepts_always",
+    "SkVerif.C16.union_rowwise",
+    "SkVerif.C16.union_select_equivariant",
+    # about the ORIGINAL FeatureUnion._hstack (before /repo bec276b): the record of the repaired findings
+    "SkVerif.C16.original_union_container_witness",
+    "SkVerif.C16.original_union_default_labels_rowwise",
+    "SkVerif.C16.original_union_label_misalignment_witness",
+    "SkVerif.C16.original_union_single_instance_two_rows_witness",
 ]
 TRUSTED = [
     "hand-written model SkVerif/Model/C16RowWise.lean of the generic shapes (row loops, member-major ensembles, "
@@ -75,8 +79,7 @@ TRUSTED = [
     "the static classifier (ast walk in corr/C16.py) that maps source to a shape term: a syntactic taint "
     "analysis, not a sound one",
     "module-scoped emulations in corr/C16.py: DecisionTreeClassifier(max_depth=float) inside _sfa.py, "
-    "ColumnTransformer._iter/_hstack private signatures, FeatureUnion _transform_one signature, np.NINF, "
-    "numba.vectorize for MiniRocket's _PPV",
+    "ColumnTransformer._iter/_hstack private signatures, FeatureUnion _transform_one signature, np.NINF",
 ]
 ASSUMPTIONS = [
     "estimators are compared through canonical output rows (values, order, count); column names, index labels "
@@ -147,14 +150,6 @@ def _install_emulations():
         from sklearn.utils import Bunch
         _o = pl._transform_one
         pl._transform_one = lambda t, X, y, w, **kw: _o(t, X, y, w, params=Bunch(transform={}))
-    except Exception:
-        pass
-    try:                                                    # numba.vectorize == np.vectorize semantically
-        import sktime.transformations.panel.rocket._minirocket as mr
-        import sktime.transformations.panel.rocket._minirocket_multivariate as mrm
-        for m in (mr, mrm):
-            if not isinstance(m._PPV, np.vectorize):
-                m._PPV = np.vectorize(m._PPV)
     except Exception:
         pass
 
@@ -267,7 +262,7 @@ def _registry():
         (P + "compose.py", "ColumnTransformer"), uni=False, mv=True)
     add("featunion", T, lambda p: FeatureUnion([("m", SeriesToPrimitivesRowTransformer(MeanTransformer())),
                                                 ("t", Tabularizer())]), [{}],
-        ("sktime/series_as_features/compose/_pipeline.py", "FeatureUnion"), uni=False, hs="F,C", bases=("N",))
+        ("sktime/series_as_features/compose/_pipeline.py", "FeatureUnion"), uni=False, hs="F,C")
     add("pipe", C, lambda p: Pipeline([("rife", RandomIntervalFeatureExtractor(n_intervals=3, random_state=p["rs"],
                                                                                 features=[np.mean, np.std, _slope_feature])),
                                        ("clf", DecisionTreeClassifier(random_state=p["rs"]))]), [{"rs": 1}, {"rs": 2}], None)
